@@ -144,9 +144,13 @@ func registerTime(e *Engine) {
 			return t
 		}
 		if in.drawCursor < len(in.draws) {
-			d := in.draws[in.drawCursor]
+			// re-execution after verifDrawRewind: inputs are replayed, the wall clock is not —
+			// a second execution of the same code reads a different, arbitrary instant
 			in.drawCursor++
-			return in.timeNanos(d.Syms[0])
+			in.nowReplays++
+			sym := in.b.Sym(fmt.Sprintf("d%d_now_again%d", in.drawCursor-1, in.nowReplays), 64)
+			in.constrain(in.b.And(in.b.SLt(sym, in.b.BV(1<<62, 64)), in.b.SLt(in.b.BV(uint64(1<<63)+uint64(1<<62), 64), sym)))
+			return in.timeNanos(sym)
 		}
 		in.drawCursor++
 		n := len(in.draws)
@@ -273,8 +277,26 @@ func registerTime(e *Engine) {
 		}
 		keys := in.strTerms(s)
 		ok := in.uf("ParseDuration.ok", 0, keys...)
+		val := in.uf("ParseDuration.val", 64, keys...)
+		// exact on the sub-language <1..4 decimal digits>"s" (whole seconds); uninterpreted elsewhere.
+		// Counterexample models are asked to stay inside the sub-language so that they replay natively.
+		b := in.b
+		f := in.str.Flat(s)
+		simple := b.False
+		for k := 1; k <= 4 && k < len(f.B); k++ {
+			cond := []*Term{b.Eq(f.Len, b.BV(uint64(k+1), 64)), b.Eq(f.B[k], b.BV('s', 8))}
+			num := b.BV(0, 64)
+			for j := 0; j < k; j++ {
+				cond = append(cond, b.ULe(b.BV('0', 8), f.B[j]), b.ULe(f.B[j], b.BV('9', 8)))
+				num = b.Add(b.Mul(num, b.BV(10, 64)), b.ZExt(b.Sub(f.B[j], b.BV('0', 8)), 64))
+			}
+			is := b.And(cond...)
+			in.constrain(b.Implies(is, b.And(ok, b.Eq(val, b.Mul(num, b.BV(1000000000, 64))))))
+			simple = b.Or(simple, is)
+		}
+		in.prefs = append(in.prefs, b.Implies(ok, simple))
 		if in.branch(ok) {
-			return TupleV{E: []Value{Sc{in.uf("ParseDuration.val", 64, keys...)}, IfaceV{}}}
+			return TupleV{E: []Value{Sc{val}, IfaceV{}}}
 		}
 		return TupleV{E: []Value{Sc{in.b.BV(0, 64)}, in.newError(in.str.Const("time: invalid duration"))}}
 	})
